@@ -188,6 +188,22 @@ def enum_cases():
                 cases.append({"status": status, "headers": [["X-Before", "bZq"], [name, value], ["X-After", "aZq"]],
                               "markers": ["ZqS", "ZqN", "ZqV", "bZq", "aZq", "pwnedZq"],
                               "sig": [field, pos, ord(ch)]})
+                if payload:
+                    # the same injection without anything behind it (a value that simply ends in a line break)
+                    st2 = s if field == "status" else BENIGN_STATUS
+                    v2 = s if field == "value" else BENIGN_VALUE
+                    cases.append({"status": st2, "headers": [["X-Before", "bZq"], [name, v2], ["X-After", "aZq"]],
+                                  "markers": ["ZqS", "ZqN", "ZqV", "bZq", "aZq", "pwnedZq"],
+                                  "sig": [field, pos, ord(ch), "bare"]})
+                if ch in ("\r", "\n"):
+                    for tail in ("\r\n", "\n\n", "\n\r", " \n"):
+                        st3 = base + tail if field == "status" else BENIGN_STATUS
+                        n3 = base + tail if field == "name" else BENIGN_NAME
+                        v3 = base + tail if field == "value" else BENIGN_VALUE
+                        if pos == "end" and ch == "\n":
+                            cases.append({"status": st3, "headers": [["X-Before", "bZq"], [n3, v3], ["X-After", "aZq"]],
+                                          "markers": ["ZqS", "ZqN", "ZqV", "bZq", "aZq", "pwnedZq"],
+                                          "sig": [field, pos, tail]})
     return cases
 
 
